@@ -5,6 +5,8 @@ import DispatchVerif.Core.Utf8F
 import DispatchVerif.Core.Utf16P
 import DispatchVerif.Core.Utf16F
 import DispatchVerif.Core.Utf16E
+import DispatchVerif.Core.Utf8Acc
+import DispatchVerif.Core.Utf16Acc
 /-! # C20 — data transforms round-trip and never read outside their input
 
 Property theorems only. Models: `B64` / `B32` / `B32H` (encoder and decoder loops of `src/transform.c` with the
@@ -92,8 +94,7 @@ theorem surrogates_rejected (c : Nat) (h : 0xd800 ≤ c ∧ c ≤ 0xdfff) (b : B
 /-- **round trip of well-formed text** (one region; any text of scalar values not starting with U+FEFF):
     the UTF-8 → UTF-16LE model yields BOM + UTF-16, the UTF-16LE → UTF-8 model gives the original bytes back,
     and the `encode` hook of the UTF-8 format leaves them alone.
-    *Partial* with respect to the property: for fragmented UTF-16 input the statement rests on the
-    differential run (no fragmentation theorem for the UTF-16 → UTF-8 loop yet). -/
+    Fragmentation is covered by `utf8_utf16_roundtrip_any_fragmentation` below. -/
 theorem utf8_utf16_roundtrip_single_region (cs : List Nat) (hs : ∀ c ∈ cs, Utf8P.scalar c) (hne : cs ≠ [])
     (hb : cs.head? ≠ some 0xfeff) :
     ∃ us, Utf8P.toUtf16 [cs.flatMap Utf8P.enc] = .ok us 0 ∧
@@ -101,6 +102,41 @@ theorem utf8_utf16_roundtrip_single_region (cs : List Nat) (hs : ∀ c ∈ cs, U
       Utf16P.withoutBom (cs.flatMap Utf8P.enc) = cs.flatMap Utf8P.enc := by
   obtain ⟨us, h1, h2⟩ := Utf16P.utf8_utf16_roundtrip_single cs hs hne hb
   exact ⟨us, h1, h2, Utf16P.withoutBom_id cs hs hb⟩
+
+/-- **round trip under any fragmentation**: however the UTF-8 text is cut into regions (position-shaped loop) and however the
+    resulting UTF-16 is cut into non-empty regions (the loop as written in the source), the original bytes come back -/
+theorem utf8_utf16_roundtrip_any_fragmentation (cs : List Nat) (hs : ∀ c ∈ cs, Utf8P.scalar c) (hne : cs ≠ [])
+    (hb : cs.head? ≠ some 0xfeff) (rs : List (List Nat)) (hrs : rs ≠ []) (hp : ∀ r ∈ rs, r ≠ []) :
+    ∃ us, Utf8P.toUtf16 [cs.flatMap Utf8P.enc] = .ok us 0 ∧
+      (rs.flatten = Utf16P.bytesLE us → Utf16E.conv (Utf16P.fromUtf16 false rs) = some (.ok (cs.flatMap Utf8P.enc) 0)) := by
+  obtain ⟨us, h1, h2⟩ := Utf16P.utf8_utf16_roundtrip_single cs hs hne hb
+  refine ⟨us, h1, fun hf => ?_⟩
+  rw [Utf16E.fromUtf16_fragmentation_independent false rs hrs hp, hf, h2]
+  rfl
+
+/-! ## a transform fails or returns data the inverse transform accepts — for ARBITRARY input -/
+
+/-- whatever UTF-8 → UTF-16 returns for arbitrary bytes and any fragmentation is BOM + the UTF-16 of scalar values -/
+theorem utf8_to_utf16_output_wellformed (flat : List Nat) (lens : List Nat) (hne : lens ≠ []) {us : List Nat} {s : Nat}
+    (h : Utf8P.toUtf16F flat lens = .ok us s) : ∃ cs : List Nat, (∀ c ∈ cs, Utf8P.scalar c) ∧ us = 0xfeff :: cs.flatMap Utf8P.enc16 :=
+  Utf8P.toUtf16F_output_wf flat lens hne h
+
+/-- … and the inverse transform (the loop as written in the source) accepts it -/
+theorem utf8_to_utf16_output_accepted (flat : List Nat) (lens : List Nat) (hne : lens ≠ []) {us : List Nat} {s : Nat}
+    (h : Utf8P.toUtf16F flat lens = .ok us s) : ∃ out, Utf16P.fromUtf16 false [Utf16P.bytesLE us] = .ok out 0 0 :=
+  Utf16P.utf8_to_utf16_output_accepted flat lens hne h
+
+/-- whatever UTF-16 → UTF-8 returns for arbitrary bytes, either byte order and any fragmentation is the UTF-8 of scalar values -/
+theorem utf16_to_utf8_output_wellformed (be : Bool) (flat : List Nat) (hb : ∀ x ∈ flat, x < 256) (lens : List Nat)
+    {out : List Nat} {s : Nat} (h : Utf16F.fromUtf16F be flat lens = .ok out s) :
+    ∃ cs : List Nat, (∀ c ∈ cs, Utf8P.scalar c) ∧ out = cs.flatMap Utf8P.enc :=
+  Utf16F.fromUtf16F_output_wf be flat hb lens h
+
+/-- … and the inverse transform accepts it -/
+theorem utf16_to_utf8_output_accepted (be : Bool) (flat : List Nat) (hb : ∀ x ∈ flat, x < 256) (lens : List Nat)
+    {out : List Nat} {s : Nat} (h : Utf16F.fromUtf16F be flat lens = .ok out s) :
+    ∃ us s', Utf8P.toUtf16F out [out.length] = .ok us s' :=
+  Utf16F.utf16_to_utf8_output_accepted be flat hb lens h
 
 /-! ## the repaired defects, as facts about the models of the repaired code -/
 
